@@ -1,1 +1,159 @@
-pub fn run(_seed: u64) -> i32 { 0 }
+//! `svgdx-verif selftest`: differential test of the oracle XML parser `sxml` against Python's expat.
+//! A disagreement means the machinery is broken (exit 2) - it is never a verdict on svgdx.
+
+use crate::engine::runner_for;
+use crate::sxml::{self, Ev};
+use proptest::prelude::*;
+use proptest::strategy::ValueTree;
+use serde_json::Value;
+use std::io::{BufRead, BufReader, Write};
+use std::process::{Command, Stdio};
+
+fn to_expat_shape(evs: &[Ev]) -> Vec<Value> {
+    use serde_json::json;
+    let mut out: Vec<Value> = Vec::new();
+    for e in evs {
+        match e {
+            Ev::Decl(_) => out.push(json!(["decl"])),
+            Ev::Doctype(d) => {
+                let name = d.trim_start_matches("<!DOCTYPE").split_whitespace().next().unwrap_or("").trim_end_matches('>').to_string();
+                out.push(json!(["doctype", name]));
+            }
+            Ev::PI { target, data } => out.push(json!(["pi", target, data])),
+            Ev::Comment(c) => out.push(json!(["comment", c])),
+            Ev::Start { name, attrs, empty } => {
+                let a: Vec<Value> = attrs.iter().map(|(k, v)| json!([k, v])).collect();
+                out.push(json!(["start", name, a]));
+                if *empty {
+                    out.push(json!(["end", name]));
+                }
+            }
+            Ev::End { name } => out.push(json!(["end", name])),
+            Ev::Text(t) => out.push(json!(["text", t])),
+            Ev::CData(t) => out.push(json!(["cdata", t])),
+        }
+    }
+    out
+}
+
+/// expat reports whitespace-only text in prolog/epilog nowhere, like sxml's document mode; inside the
+/// root both report everything. expat merges nothing across CDATA boundaries either.
+fn damage(doc: &str, ops: &[(u8, u32, u8)]) -> String {
+    const INS: &[&str] = &["<", ">", "&", "\"", "'", "/", "=", " ", "--", "]]>", "<!--", "-->", "<![CDATA[", "?>", "<?x ", "&#0;", "&#x41;", "&lt;", "&bogus;", "<a>", "</a>", "<a/>", " a='1'", "\u{1}", "x", ";", "&amp", "<!", "</", "&#xD800;", "&#1114112;", "xml"];
+    let mut s: Vec<char> = doc.chars().collect();
+    for (op, pos, k) in ops {
+        if s.is_empty() {
+            break;
+        }
+        let p = *pos as usize % s.len();
+        match op % 4 {
+            0 => {
+                s.remove(p);
+            }
+            1 => {
+                let ins: Vec<char> = INS[*k as usize % INS.len()].chars().collect();
+                for (i, c) in ins.into_iter().enumerate() {
+                    s.insert(p + i, c);
+                }
+            }
+            2 => {
+                let c = s[p];
+                s.insert(p, c);
+            }
+            _ => {
+                let q = (*k as usize * 7 + p) % s.len();
+                s.swap(p, q);
+            }
+        }
+    }
+    s.into_iter().collect()
+}
+
+pub fn run(seed: u64) -> i32 {
+    let driver = "/verif/tools/expat_driver.py";
+    let mut child = match Command::new("python3").arg(driver).stdin(Stdio::piped()).stdout(Stdio::piped()).stderr(Stdio::null()).spawn() {
+        Ok(c) => c,
+        Err(e) => {
+            eprintln!("selftest: cannot start python3 expat driver: {e}");
+            return 2;
+        }
+    };
+    let mut stdin = child.stdin.take().unwrap();
+    let mut stdout = BufReader::new(child.stdout.take().unwrap());
+    let strat = (crate::props::c03::document_strategy(), proptest::collection::vec((any::<u8>(), any::<u32>(), any::<u8>()), 0..3));
+    let n = 6000usize;
+    let (mut agree_ok, mut agree_err, mut excluded) = (0usize, 0usize, 0usize);
+    for i in 0..n {
+        let mut runner = runner_for(seed, "selftest", "sxml-vs-expat", i);
+        let (doc, ops) = match strat.new_tree(&mut runner) {
+            Ok(t) => t.current(),
+            Err(_) => continue,
+        };
+        // two thirds of the documents are damaged (mostly ill-formed), one third left well-formed
+        let doc = if i % 3 == 0 { doc } else { damage(&doc, &ops) };
+        // out-of-scope for the comparison: CR (line-end normalisation), TAB/LF in attribute values cannot be
+        // told apart cheaply, so skip any document containing CR or TAB; internal DTD subsets; non-ASCII outside
+        // character data is judged by different editions of the name rules
+        if doc.contains('\r') || doc.contains('\t') || (doc.contains("<!DOCTYPE") && doc.contains('[')) {
+            excluded += 1;
+            continue;
+        }
+        let mine = sxml::parse_document(&doc);
+        if writeln!(stdin, "{}", serde_json::to_string(&doc).unwrap()).is_err() {
+            eprintln!("selftest: driver pipe closed");
+            return 2;
+        }
+        let _ = stdin.flush();
+        let mut line = String::new();
+        if stdout.read_line(&mut line).unwrap_or(0) == 0 {
+            eprintln!("selftest: driver died");
+            return 2;
+        }
+        let theirs: Value = serde_json::from_str(&line).unwrap_or(Value::Null);
+        let their_ok = theirs.get("ok").and_then(|v| v.as_bool()).unwrap_or(false);
+        match (&mine, their_ok) {
+            (Ok(evs), true) => {
+                let a = Value::Array(to_expat_shape(evs));
+                let b = theirs.get("events").cloned().unwrap_or(Value::Null);
+                // attribute values containing a newline are normalised by expat: skip those
+                let has_nl_attr = evs.iter().any(|e| matches!(e, Ev::Start { attrs, .. } if attrs.iter().any(|(_, v)| v.contains('\n'))));
+                if has_nl_attr {
+                    excluded += 1;
+                } else if a != b {
+                    eprintln!("selftest: sxml and expat disagree on the EVENTS of document #{i}:\n{doc}\n  sxml : {a}\n  expat: {b}");
+                    return 2;
+                } else {
+                    agree_ok += 1;
+                }
+            }
+            (Err(_), false) => agree_err += 1,
+            (Ok(_), false) | (Err(_), true) => {
+                let err = theirs.get("err").and_then(|v| v.as_str()).unwrap_or("").to_string();
+                let mine_s = match &mine {
+                    Ok(_) => "accepted".to_string(),
+                    Err(e) => e.to_string(),
+                };
+                // documented, benign differences
+                let non_ascii_markup = !doc.is_ascii();
+                // sxml skips a DOCTYPE declaration textually (svgdx never synthesises one, it only copies the
+                // input's through), so its internal syntax and its effect on entity handling are not compared
+                let dtd_entity = doc.contains("<!DOCTYPE") || doc.contains("<!DOC");
+                let decl_detail = doc.contains("<?xml") && (err.contains("XML declaration") || err.contains("XML or text declaration") || mine_s.contains("XML declaration") || mine_s.contains("reserved PI target") || err.contains("encoding"));
+                if non_ascii_markup || dtd_entity || decl_detail {
+                    excluded += 1;
+                } else {
+                    eprintln!("selftest: sxml and expat disagree on WELL-FORMEDNESS of document #{i}:\n{doc}\n  sxml : {mine_s}\n  expat: {}", if their_ok { "accepted".to_string() } else { err });
+                    return 2;
+                }
+            }
+        }
+    }
+    drop(stdin);
+    let _ = child.wait();
+    eprintln!("selftest: sxml vs expat on {n} documents: {agree_ok} accepted with identical events, {agree_err} rejected by both, {excluded} excluded (out of scope)");
+    if agree_ok < 500 || agree_err < 500 {
+        eprintln!("selftest: too few comparable documents");
+        return 2;
+    }
+    0
+}
